@@ -55,3 +55,24 @@ Theorem C16_unknown_keeps_going : forall c rec sn fname fv vn vns b,
   on_rules c rec sn fname fv vns (put b [CField sn fname (FKnown (not_exist_text (pk_key vn)))]).
 Proof. exact unknown_keeps_going. Qed.
 Print Assumptions C16_unknown_keeps_going.
+
+(* ---- from the source text (regenerated from /repo on every run): validCommon.getValidFn (valid/abstract.go), under the
+   semantics of Model/GoWalk.v, looks the name up among this call's functions, then in the global table (registered
+   functions shadow the built-ins there), and hands out the "is not exist" error otherwise — get_fn_pair is get_fn with
+   the error made explicit; the getValidFn methods of the three flat walkers delegate to it word for word ---- *)
+From PGV Require Import Base.MiniGo Extracted.SourceFnsWalk Model.GoWalk Proofs.GoWalkProofs.
+Theorem C16_lookup_from_source : forall c rules name,
+  run_get_valid_fn c rules fn_validCommon_getValidFn name = Some (get_fn_pair c name) /\
+  fn_body fn_VVar_getValidFn = delegation /\ fn_body fn_VMap_getValidFn = delegation /\ fn_body fn_VUrl_getValidFn = delegation.
+Proof. intros c rules name. split; [exact (get_valid_fn_from_source c rules name) | exact get_valid_fn_wrappers]. Qed.
+Print Assumptions C16_lookup_from_source.
+
+(* what the pair means: the error exactly when the model's lookup fails, else the model's function and no error *)
+Theorem C16_lookup_pair_meaning : forall c name,
+  (get_fn c name = FErr -> get_fn_pair c name = (WNil, WErr (Some (not_exist_text name)))) /\
+  (get_fn c name <> FErr -> get_fn_pair c name = (WFnv (get_fn c name), WNil)).
+Proof.
+  intros c name. unfold get_fn_pair. destruct (get_fn c name); cbn [is_ferr]; split; intros H; try reflexivity; try discriminate H;
+  contradiction H; reflexivity.
+Qed.
+Print Assumptions C16_lookup_pair_meaning.
